@@ -55,7 +55,9 @@ def _text(rng):
 
 
 def _input(rng):
-    t = rng.choice(INPUT_TYPES)
+    # radios / checkboxes / submit buttons drive :indeterminate, :default and :checked, so they are over-represented
+    t = rng.choice(INPUT_TYPES) if rng.random() < 0.45 else rng.choice(
+        ['radio', 'radio', 'radio', 'radio', 'checkbox', 'submit', 'Radio'])
     extra = []
     if rng.random() < 0.9:
         extra.append(('type', t))
@@ -96,9 +98,27 @@ def _input(rng):
     return f'<input{_attrs(rng, extra)}>'
 
 
+def _radio_block(rng):
+    # a handful of radios over a tiny name set (case variants, empty, missing): dense, adversarial radio groups
+    names = rng.sample(['r1', 'R1', 'r2', '', None], 2)
+    out = []
+    for _ in range(rng.randint(2, 5)):
+        nm = rng.choice(names)
+        extra = [('type', rng.choice(['radio', 'radio', 'radio', 'RADIO']))]
+        if nm is not None:
+            extra.append(('name', nm))
+        if rng.random() < 0.3:
+            extra.append(('checked', ''))
+        out.append(f'<input{_attrs(rng, extra)}>')
+    return ''.join(out)
+
+
 def _form(rng, depth, budget):
     parts = []
     n = rng.randint(1, 5)
+    if rng.random() < 0.3:
+        parts.append(_radio_block(rng))
+        budget[0] -= 2
     for _ in range(n):
         if budget[0] <= 0:
             break
@@ -143,7 +163,7 @@ def _node(rng, depth, budget, allow_form=True):
     if r < 0.13 and allow_form:
         return _form(rng, depth, budget)
     if r < 0.2:
-        return _input(rng)
+        return _input(rng) if rng.random() < 0.8 else _radio_block(rng)
     if r < 0.25:
         return f'<a{_attrs(rng, [("href", "#x")] if rng.random() < 0.7 else None)}>{_text(rng)}</a>'
     if r < 0.28:
@@ -241,9 +261,13 @@ def _xml_node(rng, depth, budget):
     if rng.random() < 0.15 and name == 'a':
         attrs += ' href="#"'
     if name == 'input':
-        attrs += ' type="%s"' % rng.choice(['radio', 'submit', 'text', 'number'])
+        attrs += ' type="%s"' % rng.choice(['radio', 'submit', 'text', 'number', 'checkbox', 'radio'])
         if rng.random() < 0.5:
             attrs += ' name="r1"'
+        if rng.random() < 0.4:
+            attrs += ' checked="checked"'
+        if rng.random() < 0.2:
+            attrs += ' disabled="disabled"'
     if depth >= 4 or r < 0.3:
         t = _text(rng).replace('&', '').replace('<', '')
         if rng.random() < 0.1:
@@ -323,7 +347,12 @@ def gen_doc(rng, max_size=40, parsers=None, odd=0.15):
                 rng.choice(['class', 'id', 'lang', 'type', 'name', 'data-x', 'dir', 'value', 'href']),
                 rng.choice(ODD_VALUES)
             ])
-    return {'markup': markup, 'parser': parser, 'mut': mut}
+    spec = {'markup': markup, 'parser': parser, 'mut': mut}
+    if rng.random() < 0.1:
+        # a detached fragment: one element is extracted from the tree and *it* becomes the document root
+        # (parentless Tag, no BeautifulSoup object above it)
+        spec['detach'] = rng.randint(0, 60)
+    return spec
 
 
 def build_doc(spec):
@@ -339,6 +368,11 @@ def build_doc(spec):
         if els:
             for i, attr, val in spec['mut']:
                 els[i % len(els)].attrs[attr] = decode_value(val)
+    if spec.get('detach') is not None:
+        els = [e for e in soup.descendants if isinstance(e, bs4.Tag)]
+        if els:
+            inner = [e for e in els if any(isinstance(c, bs4.Tag) for c in e.contents)] or els
+            return inner[spec['detach'] % len(inner)].extract()
     return soup
 
 
@@ -624,3 +658,90 @@ STATEFUL_POOL = [
     ':not(:lang(""))', ':lang("") :default', ':where(:indeterminate) ~ :lang(en)', '*', 'input', 'p', 'div *',
     ':empty', ':first-child', ':only-child', ':-soup-contains(hello)', ':has(:lang(de))', ':has(~ :indeterminate)',
 ]
+
+
+# (pattern, namespace map): namespace-prefixed selectors combined with HTML-only pseudo-classes, for XML / XHTML
+# documents - the matcher swaps its namespace map while it evaluates the internal HTML-only lists.
+XML_STATEFUL_POOL = [
+    (':checked, x|item', {'x': NS_X}), (':link, x|*', {'x': NS_X}), (':is(:enabled, x|item)', {'x': NS_X}),
+    ('h|input:checked ~ x|item', {'x': NS_X, 'h': NS_XHTML}), (':any-link, x|item, s|*', {'x': NS_X, 's': NS_SVG}),
+    ('x|item, :disabled', {'x': NS_X}), (':not(:checked) x|item', {'x': NS_X}), ('x|*', {'x': NS_X}),
+    (':has(:checked) x|item, x|row', {'x': NS_X}), ('[x|k]', {'x': NS_X}), (':required, :optional, x|a', {'x': NS_X}),
+    ('h|*:checked, x|*', {'x': NS_X, 'h': NS_XHTML}), ('x|item:lang(en), :default', {'x': NS_X}),
+    (':read-write, x|p', {'x': NS_X}), ('*|item, :checked', None), ('|item, :link', {'x': NS_X}),
+    (':checked + x|item, :checked ~ x|*', {'x': NS_X}), (':root x|item', {'x': NS_X}),
+]
+
+
+# selectors that evaluate a structural pseudo-class on the *root* of the queried tree (matters for detached fragments,
+# where the matcher has to invent a parent for the root)
+ROOT_NTH_POOL = [
+    ':first-child *', ':nth-child(1) *', ':only-child > *', '*:nth-last-child(1) *', ':root:first-child *',
+    ':first-of-type > :last-child', ':nth-of-type(1)', ':only-of-type *', ':nth-child(odd)', ':last-child',
+    ':nth-last-of-type(1) > *', ':not(:nth-child(2)) > *',
+]
+
+
+# feature of the markup -> selectors that exercise it (used to align the selector pool with the documents of a run)
+FEATURE_POOLS = {
+    'radio': [':indeterminate', 'input:indeterminate', ':not(:indeterminate)', ':has(> :indeterminate)', ':checked',
+              ':indeterminate, :default', 'form :indeterminate', ':is(:indeterminate, :checked)'],
+    'submit': [':default', 'form :default', ':not(:default)', ':has(:default)', ':default:enabled', 'button:default'],
+    'lang': [':lang("")', ':lang(en)', ':lang(de)', ':not(:lang(en))', ':lang("*-DE")', ':lang(fr, de)', ':lang("*")'],
+    'dir': [':dir(ltr)', ':dir(rtl)', ':not(:dir(ltr))'],
+    'range': [':in-range', ':out-of-range', ':not(:in-range)'],
+    'iframe': ['iframe :lang(de)', 'iframe :default', 'iframe *', ':root', 'iframe :root', 'html :indeterminate'],
+    'form': [':disabled', ':enabled', ':read-write', ':required', ':optional', ':placeholder-shown', ':read-only'],
+}
+
+
+def markup_features(markup):
+    m = markup.lower()
+    out = []
+    if 'type="radio"' in m:
+        out.append('radio')
+    if 'type="submit"' in m:
+        out.append('submit')
+    if 'lang=' in m or 'content-language' in m or '<head' in m:
+        out.append('lang')
+    if 'dir=' in m or '<bdi' in m:
+        out.append('dir')
+    if 'min=' in m or 'max=' in m:
+        out.append('range')
+    if '<iframe' in m:
+        out.append('iframe')
+    if '<form' in m or '<input' in m:
+        out.append('form')
+    return out
+
+
+_VARIANT_SWAPS = [
+    ('content="en"', 'content="fr"'), ('content="de-DE"', 'content="en-US"'), ('content="fr"', 'content="de"'),
+    ('content="en-US"', 'content="de-DE"'), ('content="de"', 'content="en"'),
+    ('lang="en"', 'lang="de"'), ('lang="de"', 'lang="en"'), ('lang="fr"', 'lang="en"'), ('lang="en-US"', 'lang="de-DE"'),
+    ('dir="rtl"', 'dir="ltr"'), ('dir="ltr"', 'dir="rtl"'), (' checked=""', ' data-c=""'), ('type="submit"', 'type="button"'),
+    ('name="r1"', 'name="r2"'), ('value="5"', 'value="9"'), ('min="0"', 'min="7"'),
+]
+
+
+def variant_spec(rng, spec):
+    """Same shape (same nodes, same allocation pattern), different facts: the document a stale identity-keyed memo
+    would confuse with its predecessor when it is parsed into the memory the predecessor just released."""
+
+    m = spec['markup']
+    swaps = [sw for sw in _VARIANT_SWAPS if sw[0] in m]
+    if not swaps:
+        return None
+    rng.shuffle(swaps)
+    done = set()
+    for a, b in swaps[:rng.randint(1, 4)]:
+        if a in done or b in done:
+            continue
+        m = m.replace(a, '\x00').replace(b, a).replace('\x00', b) if rng.random() < 0.5 else m.replace(a, b)
+        done.add(a)
+        done.add(b)
+    if m == spec['markup']:
+        return None
+    out = dict(spec)
+    out['markup'] = m
+    return out
